@@ -720,3 +720,43 @@ def main(ctx):
     lunits = [(fn, un, n, form) for n in long_ns for fn, un in (("sphdist", None), ("sphdist", ("rad", "deg")), ("gcirc", None))
               for form in ("arrays", "centre")]
     ctx.lattice("long-arrays", lunits, one_long, bounds=dict(lengths=list(long_ns), base_period=199, forms=["arrays", "centre"]))
+
+    # ------------------------------------------------------------ arguments that are views of ONE buffer
+    # the four coordinate arguments as the same objects, overlapping windows, strided and reversed views of one
+    # array: the answer is that of independent copies, and the buffer is untouched
+    def one_alias(case, rec):
+        fn, un, vname = case
+        buf = np.array([10.0, 20.0, 30.0, 40.0, 50.0, 60.0, 15.5, 80.0, 10.0, 20.0, 200.0, 20.0])
+        views = {"same-objects": (buf[:6], buf[6:], buf[:6], buf[6:]), "ra-is-dec": (buf[:6], buf[:6], buf[6:], buf[6:]),
+                 "overlap": (buf[0:6], buf[3:9], buf[2:8], buf[5:11]), "strided": (buf[::2], buf[1::2], buf[1::2], buf[::2]),
+                 "reversed": (buf[:6], buf[6:], buf[:6][::-1], buf[6:][::-1]), "one-array-four-times": (buf[:6], buf[:6], buf[:6], buf[:6])}
+        a1, d1, a2, d2 = views[vname]
+        if un is not None and un[0] == "rad":
+            return rec.ok(case, outcome="alias:skipped", nontrivial=False)
+        d1c, d2c = np.clip(d1, -90, 90), np.clip(d2, -90, 90)
+        if not (np.array_equal(d1, d1c) and np.array_equal(d2, d2c)):
+            # latitudes beyond 90 are not positions: use the same views of a buffer scaled into range
+            buf = buf * 0.4
+            views = {"same-objects": (buf[:6], buf[6:], buf[:6], buf[6:]), "ra-is-dec": (buf[:6], buf[:6], buf[6:], buf[6:]),
+                     "overlap": (buf[0:6], buf[3:9], buf[2:8], buf[5:11]), "strided": (buf[::2], buf[1::2], buf[1::2], buf[::2]),
+                     "reversed": (buf[:6], buf[6:], buf[:6][::-1], buf[6:][::-1]), "one-array-four-times": (buf[:6], buf[:6], buf[:6], buf[:6])}
+            a1, d1, a2, d2 = views[vname]
+        keep = buf.copy()
+        try:
+            got = np.asarray(call(fn, un, (a1, d1), (a2, d2)))
+            ref = np.asarray(call(fn, un, (a1.copy(), d1.copy()), (a2.copy(), d2.copy())))
+        except Exception as e:
+            return rec.fail(case, "%s on %s views of one buffer raised %s: %s" % (fn, vname, type(e).__name__, e))
+        if buf.tobytes() != keep.tobytes():
+            return rec.fail(case, "%s on %s views modified the buffer" % (fn, vname))
+        if got.shape != ref.shape or not np.array_equal(got, ref):
+            return rec.fail(case, "%s on %s views of one buffer gives %r, on independent copies %r" % (fn, vname, got.tolist(), ref.tolist()))
+        t = true_sep(a1, d1, a2, d2, "deg")
+        tol, vmax = limits(fn, units_of(fn, un)[1])
+        tout = t / D2R if units_of(fn, un)[1] == "deg" else t
+        if not np.all(np.abs(got.astype(LD) - tout) <= tol):
+            return rec.fail(case, "%s on %s views: %r, true %r" % (fn, vname, got.tolist(), [float(v) for v in tout]))
+        rec.ok(case, outcome="alias:%s" % vname, nontrivial=True, calls=2)
+
+    aunits = [(fn, un, v) for fn, un in VARIANTS for v in ("same-objects", "ra-is-dec", "overlap", "strided", "reversed", "one-array-four-times")]
+    ctx.lattice("aliased-arguments", aunits, one_alias, bounds=dict(views=["same-objects", "ra-is-dec", "overlap", "strided", "reversed", "one-array-four-times"]))
